@@ -173,6 +173,8 @@ type GenCfg struct {
 	CompileErrPct                           int  // percent of programs with an injected static compile error
 	PreDecl                                 bool // start with one variable of every type
 	BadLitPct                               int  // percent of int literals spelled without a value (2^63, 08, 0x): the program must be rejected
+	Fillers                                 int  // declare this many extra variables first (more than 128 / 240 live locals)
+	BadNamePct                              int  // percent of block names spelled with an invalid escape: the program must be rejected
 	ShadowBias                              bool // prefer re-using names (shadowing, var x = x+1)
 }
 
@@ -569,6 +571,10 @@ func (g *Gen) Stmt() *Stmt {
 		if bn := g.pick(g.Cfg.BlockNames); bn != "" || r.Intn(8) == 0 {
 			s.BlockName = SpellStr(r, bn, g.Cfg.HostileLits)
 		}
+		if g.Cfg.BadNamePct > 0 && r.Intn(100) < g.Cfg.BadNamePct {
+			s.BlockName = &Literal{Kind: LStr, Text: []string{`"\q"`, `"a\x1"`, `"\'"`, `"web\qserver"`}[r.Intn(4)], Bad: true, Val: ""}
+			g.Shapes["inject:badname"]++
+		}
 		g.M.OpenBlock(s)
 		n := r.Intn(g.Cfg.MaxBody + 1)
 		for i := 0; i < n && !g.M.Dead(); i++ {
@@ -620,6 +626,11 @@ func (g *Gen) Program() *Program {
 			g.M.Exec(s)
 			p.Stmts = append(p.Stmts, s)
 		}
+	}
+	for k := 0; k < g.Cfg.Fillers; k++ {
+		s := &Stmt{Kind: SVar, Name: fmt.Sprintf("w%d", k), E: Lit(IntLit(k % 9))}
+		g.M.Exec(s)
+		p.Stmts = append(p.Stmts, s)
 	}
 	n := 1 + r.Intn(max(1, g.Cfg.MaxStmts))
 	for i := 0; i < n; i++ {
@@ -684,6 +695,9 @@ func CfgExpr() GenCfg {
 		Types: []string{"blk", "t"}, BlockNames: []string{"", "n1", "1.5", "0.5"}, ErrPct: 12, ParenPct: 12, AssignPct: 6, HostileLits: true,
 		WVar: 2, WPrint: 6, WEval: 1, WExpr: 5, WDef: 2, WBind: 0, PreDecl: true}
 }
+
+// LongNames: identifiers around the 64-byte and 255-byte marks.
+var LongNames = []string{"n" + strings.Repeat("x", 62), "n" + strings.Repeat("y", 63), "n" + strings.Repeat("z", 64), "_u", "_" + strings.Repeat("q", 99), "m" + strings.Repeat("k", 255)}
 
 func CfgScope() GenCfg {
 	return GenCfg{MaxStmts: 14, MaxBody: 7, ExprDepth: 3, MaxNest: 5, Names: []string{"x", "y", "z", "w"},
